@@ -109,7 +109,16 @@ def run_sim(rec, spec, rng, i):
         atoms.calc = Harmonic(sites, k, quartic=0.05 * k)
         mc = HamiltonianCanonical(atoms, temperature=T, max_cycles=2, seed=seed)
         omega = math.sqrt(2 * k / atoms.get_masses().min())
-        mc.add_move(HamiltonianDisplacementMove(operation=Verlet(dt=float(rng.uniform(0.2, 1.2)) / omega / 0.0982269, max_steps=int(rng.integers(1, 12)))), name="h")
+        from quansino.utils.dynamics import maxwell_boltzmann_distribution
+
+        def recording_refresh(context):
+            # the shipped refresh; the oracle's reference kinetic energy is that of the momenta it has just drawn
+            maxwell_boltzmann_distribution(context)
+            it_ = metropolis.INTENT.get(id(context))
+            if it_ is not None:
+                it_["ke_ref"] = float(context.atoms.get_kinetic_energy())
+
+        mc.add_move(HamiltonianDisplacementMove(distribution=recording_refresh, operation=Verlet(dt=float(rng.uniform(0.2, 1.2)) / omega / 0.0982269, max_steps=int(rng.integers(1, 12)))), name="h")
         metropolis.intend(mc.context, T=T)
     elif ens in ("isobaric", "isotension", "isotension-hydro"):
         edge = float(10 ** rng.uniform(-1, 3))
